@@ -102,12 +102,46 @@ func refHeaders(buf []byte) (res int, hs [refMaxHdrs]refHdr, count int, end int)
 }
 
 func H_C07(t, w, hcap int) {
-	buf := vTpl(t, w)
 	var hl HdrLst
 	var hbuf [refMaxHdrs + 1]Hdr
 	hl.Hdrs = hbuf[:hcap]
-	o, e := ParseHeaders(buf, 0, &hl, nil)
-	res, hs, count, end := refHeaders(buf)
+	text := vTpl(t, w)
+	c07(text, text, &hl, hcap, 0, 0)
+}
+
+// H_C07_at: the block starts at offset k of the buffer and arrives in two
+// pieces (every cut, chosen symbolically; choice 0 = in one piece).
+func H_C07_at(t, w, hcap, k int) {
+	var hl HdrLst
+	var hbuf [refMaxHdrs + 1]Hdr
+	hl.Hdrs = hbuf[:hcap]
+	text := vTpl(t, w)
+	buf := vPad(k, []byte{'\r', '\n'}, text)
+	o := k
+	if c := vChoice(len(text)); c > 0 {
+		var e ErrorHdr
+		o, e = ParseHeaders(buf[:k+c], k, &hl, nil)
+		if e != ErrHdrMoreBytes {
+			vReach("early")
+			return
+		}
+	}
+	c07(text, buf, &hl, hcap, k, o)
+}
+
+// c07: final call (from offset o of buf, the block text starting at k) and
+// comparison with the reference tokeniser.
+func c07(text, buf []byte, phl *HdrLst, hcap, k, o int) {
+	o, e := ParseHeaders(buf, o, phl, nil)
+	hl := *phl
+	res, hs, count, end := refHeaders(text)
+	for i := 0; i < count; i++ {
+		hs[i].ns, hs[i].ne = hs[i].ns+k, hs[i].ne+k
+		if hs[i].ve != 0 {
+			hs[i].vs, hs[i].ve = hs[i].vs+k, hs[i].ve+k
+		}
+	}
+	end += k
 	vObs("o", o)
 	vObs("e", int(e))
 	vObs("res", res)
@@ -130,7 +164,7 @@ func H_C07(t, w, hcap int) {
 		if i < hcap {
 			g := &hl.Hdrs[i]
 			vAssert("name-span", pfIs(g.Name, h.ns, h.ne))
-			vAssert("value-span", pfIs(g.Val, h.vs, h.ve))
+			vAssert("value-span", pfIs(g.Val, h.vs, h.ve) || (k > 0 && h.ve == 0 && g.Val.Len == 0))
 			vAssert("type", int(g.Type) == ty)
 		}
 	}
@@ -148,7 +182,7 @@ func H_C07(t, w, hcap int) {
 		f := hl.GetHdr(t)
 		if found {
 			vAssert("first-of-type-present", f.Type == t)
-			vAssert("first-of-type-spans", pfIs(f.Name, ns, ne) && pfIs(f.Val, vs, ve))
+			vAssert("first-of-type-spans", pfIs(f.Name, ns, ne) && (pfIs(f.Val, vs, ve) || (k > 0 && ve == 0 && f.Val.Len == 0)))
 		} else {
 			vAssert("first-of-type-absent", f.Type == HdrNone)
 		}
